@@ -274,6 +274,11 @@ func runC05(c *Ctx, idx int, o *Obs) {
 					// nothing sensible can be rooted; the statement makes no claim beyond "no damage"
 					if !remove {
 						same("outgroup_degenerate", what, t, false)
+					} else if len(present) == 0 {
+						// no listed name is a tip of the tree: nothing may be removed
+						o.Check(sameStrings(modelOf(t).SortedTips(), all), "outgroup_removed_other_tip",
+							fmt.Sprintf("%s: no outgroup name is in the tree, but its tips went from %d to %d", what, len(all), len(modelOf(t).Tips())), inp+" => "+Trunc(t.Newick(), 1500))
+						same("outgroup_degenerate", what, t, false)
 					}
 					continue
 				}
